@@ -6,6 +6,7 @@ import (
 	"errors"
 	"fmt"
 	"strings"
+	"time"
 
 	"github.com/q191201771/lal/pkg/avc"
 	"github.com/q191201771/lal/pkg/base"
@@ -32,10 +33,18 @@ func c19ErrName(err error) string {
 
 // c19Safe runs f and maps any panic to the single token "panic" (the model
 // prints the same); the site is irrelevant for the correspondence.
+// c19SlowLimit: a parser call on a few hundred bytes takes microseconds; one that takes this long does work that
+// depends on a VALUE in its input (a loop count), not on its size
+const c19SlowLimit = 2 * time.Second
+
 func c19Safe(f func() string) (out string) {
+	t0 := time.Now()
 	defer func() {
 		if r := recover(); r != nil {
 			out = "panic"
+		}
+		if d := time.Since(t0); d > c19SlowLimit {
+			out = fmt.Sprintf("slow(%ds) %s", int(d.Seconds()), out)
 		}
 	}()
 	return f()
